@@ -71,12 +71,14 @@ def DC.wd (s d : DC) : DC :=
 def DC.ov (s o : DC) : DC := o.wd s
 
 /-- The configuration in effect for a test case, composed exactly as the code does:
-    parser: `inline.wd(doc.defaults).wd(format)`; test command: `.ov(cli).withEnv(scrutEnv)`;
-    executor: `.wd(context.config.defaults)` with `context.config = doc.ov(cliDoc)`. -/
-def effectiveTC (cli inline : TCC) (doc cliDoc : DC) (fmt : TCC) (scrutEnv : Env) : TCC :=
+    parser: `inline.wd(doc.defaults).wd(format)`; test command: `.ov(cli).withEnv(scrutEnv)`.
+    (Until fix 0515072 the per-process executor applied `.wd(context.config.defaults)` once more, with
+    `context.config = doc.ov cliDoc` of the document that is RUN: a no-op for the document's own test cases,
+    a leak into the test cases of prepended / appended documents. `cliDoc` is kept as a parameter: the
+    command line has no way to set per-test defaults.) -/
+def effectiveTC (cli inline : TCC) (doc _cliDoc : DC) (fmt : TCC) (scrutEnv : Env) : TCC :=
   let parsed := (inline.wd doc.defaults).wd fmt
-  let t := (parsed.ov cli).withEnv scrutEnv
-  t.wd (doc.ov cliDoc).defaults
+  (parsed.ov cli).withEnv scrutEnv
 
 /-- `GlobalSharedParameters::to_testcase_config` (src/bin/commands/root.rs): the layer the command line
 contributes to every test case. It is built from four flags only -- `--no-combine-output`, `--combine-output`,
